@@ -970,13 +970,13 @@ func (le *lenEngine) Sites(fn *ssa.Function) []lenSite {
 		ls := lenSite{Fn: fn, Instr: in, Kind: kind, Expr: expr, OK: ok, Reason: reason}
 		switch x := in.(type) {
 		case *ssa.IndexAddr:
-			ls.Base, ls.Idx = strings.TrimPrefix(core.Expr(x.X), "&"), x.Index
+			ls.Base, ls.Idx = strings.TrimPrefix(core.KExpr(x.X), "&"), x.Index
 		case *ssa.Lookup:
-			ls.Base, ls.Idx = core.Expr(x.X), x.Index
+			ls.Base, ls.Idx = core.KExpr(x.X), x.Index
 		case *ssa.Index:
-			ls.Base, ls.Idx = core.Expr(x.X), x.Index
+			ls.Base, ls.Idx = core.KExpr(x.X), x.Index
 		case *ssa.Slice:
-			ls.Base = strings.TrimPrefix(core.Expr(x.X), "&")
+			ls.Base = strings.TrimPrefix(core.KExpr(x.X), "&")
 		}
 		out = append(out, ls)
 	}
@@ -990,14 +990,14 @@ func (le *lenEngine) Sites(fn *ssa.Function) []lenSite {
 						if ib.lo >= 0 && ib.hi < arr.Len() {
 							continue // provably inside a fixed array (incl. compiler-made variadic arrays)
 						}
-						add(in, "index", core.Expr(x), false, fmt.Sprintf("index into array of %d elements is not provably in range", arr.Len()))
+						add(in, "index", core.KExpr(x), false, fmt.Sprintf("index into array of %d elements is not provably in range", arr.Len()))
 						continue
 					}
 				}
-				le.indexSite(in, x.X, x.Index, core.Expr(x), add)
+				le.indexSite(in, x.X, x.Index, core.KExpr(x), add)
 			case *ssa.Index:
 				if b, ok := x.X.Type().Underlying().(*types.Basic); ok && b.Kind() == types.String {
-					le.indexSite(in, x.X, x.Index, core.Expr(x), add)
+					le.indexSite(in, x.X, x.Index, core.KExpr(x), add)
 					continue
 				}
 				if arr, ok := x.X.Type().Underlying().(*types.Array); ok {
@@ -1005,11 +1005,11 @@ func (le *lenEngine) Sites(fn *ssa.Function) []lenSite {
 					if ib.lo >= 0 && ib.hi < arr.Len() {
 						continue
 					}
-					add(in, "index", core.Expr(x), false, "array index not provably in range")
+					add(in, "index", core.KExpr(x), false, "array index not provably in range")
 				}
 			case *ssa.Lookup:
 				if b, ok := x.X.Type().Underlying().(*types.Basic); ok && b.Kind() == types.String {
-					le.indexSite(in, x.X, x.Index, core.Expr(x), add)
+					le.indexSite(in, x.X, x.Index, core.KExpr(x), add)
 				}
 			case *ssa.Slice:
 				le.sliceSite(in, x, add)
@@ -1027,7 +1027,7 @@ func (le *lenEngine) Sites(fn *ssa.Function) []lenSite {
 					}
 					if need > 0 && len(cc.Args) >= 1 {
 						lx := le.LenAt(cc.Args[0], in)
-						expr := "endian." + cc.Method.Name() + "(" + core.Expr(cc.Args[0]) + ")"
+						expr := "endian." + cc.Method.Name() + "(" + core.KExpr(cc.Args[0]) + ")"
 						if lx.lo >= need {
 							add(in, "byteorder", expr, true, fmt.Sprintf("len >= %d", lx.lo))
 						} else {
@@ -1037,18 +1037,18 @@ func (le *lenEngine) Sites(fn *ssa.Function) []lenSite {
 				}
 			case *ssa.TypeAssert:
 				if !x.CommaOk {
-					add(in, "assert", core.Expr(x), false, "type assertion without comma-ok panics on a mismatch")
+					add(in, "assert", core.KExpr(x), false, "type assertion without comma-ok panics on a mismatch")
 				}
 			case *ssa.Panic:
-				add(in, "panic", "panic("+core.Expr(x.X)+")", false, "explicit panic")
+				add(in, "panic", "panic("+core.KExpr(x.X)+")", false, "explicit panic")
 			case *ssa.BinOp:
 				if (x.Op == token.QUO || x.Op == token.REM) && isIntType(x.Type()) {
 					if _, isC := core.ConstInt64(x.Y); !isC {
 						ib := le.intBounds(x.Y, in, 0)
 						if ib.lo > 0 || ib.hi < 0 {
-							add(in, "div", core.Expr(x), true, "divisor is non-zero")
+							add(in, "div", core.KExpr(x), true, "divisor is non-zero")
 						} else {
-							add(in, "div", core.Expr(x), false, "integer division by a value that may be zero")
+							add(in, "div", core.KExpr(x), false, "integer division by a value that may be zero")
 						}
 					}
 				}
@@ -1076,7 +1076,7 @@ func (le *lenEngine) indexSite(in ssa.Instruction, X, idx ssa.Value, expr string
 }
 
 func (le *lenEngine) sliceSite(in ssa.Instruction, x *ssa.Slice, add func(ssa.Instruction, string, string, bool, string)) {
-	expr := core.Expr(x)
+	expr := core.KExpr(x)
 	X := x.X
 	if pt, ok := X.Type().Underlying().(*types.Pointer); ok {
 		if arr, ok := pt.Elem().Underlying().(*types.Array); ok {
